@@ -257,6 +257,33 @@ def gen_plugin(rng, ctx):
     return {"op": "plugin", "fn": "preempt", "args": jdump(a)}
 
 
+# pod names of deployment ns1/web whose pod-lock key "ns1_<name>" falls into the same slot of a 500000-slot fnv32a table (the
+# size of both hashed key-mutex tables) as the deployment's pool-lock key "dp_ns1_web_" (first three) or as the named pool's key
+# "pool__p1_" (last three): Filter, unbind and resync take the pod lock and then the pool lock in one goroutine, which is only
+# safe while the two live in different tables.  Found by enumerating 5-letter suffixes (about 1 in 500000 collides).
+LOCK_SLOT_PODS = [("web-6d4cf56db6-btj6f", ""), ("web-6d4cf56db6-c2hqz", ""), ("web-6d4cf56db6-dnbw5", ""),
+                  ("web-6d4cf56db6-cbc7d", "p1"), ("web-6d4cf56db6-ckn2q", "p1"), ("web-6d4cf56db6-c4ktk", "p1")]
+
+
+def lock_slot_cases(ctx):
+    out = []
+    for name, pool in LOCK_SLOT_PODS:
+        for policy in ("", "immutable"):
+            ann = {"k8s.v1.cni.cncf.io/networks": "galaxy-k8s-vlan"}
+            if policy:
+                ann["k8s.v1.cni.galaxy.io/release-policy"] = policy
+            if pool:
+                ann["tke.cloud.tencent.com/eni-ip-pool"] = pool
+            pod = {"metadata": {"name": name, "namespace": "ns1", "uid": "u1", "annotations": ann,
+                                "ownerReferences": [{"apiVersion": "apps/v1", "kind": "ReplicaSet", "name": "web-6d4cf56db6", "uid": "o1",
+                                                     "controller": True}]},
+                   "spec": {"containers": [{"name": "c", "resources": {"requests": {"tke.cloud.tencent.com/eni-ip": "1"}}}]}}
+            out.append({"op": "plugin", "fn": "filter", "pod": jdump(pod)})
+            out.append({"op": "plugin", "fn": "podevent", "pod": jdump(pod)})
+            ctx.dist("plugin:lock-slot-collision-pod")
+    return out
+
+
 def gen_api_http(rng, ctx):
     route = rng.choice(["list", "list", "release", "release", "pool_get", "pool_put", "pool_del"])
     ctx.dist("api_http:" + route)
@@ -460,6 +487,7 @@ def run(ctx):
         cases.append(gen_ext_http(rng, ctx))
     for _ in range(260 * n):
         cases.append(gen_plugin(rng, ctx))
+    cases += lock_slot_cases(ctx)
     for _ in range(200 * n):
         cases.append(gen_api_http(rng, ctx))
     for _ in range(160 * n):
